@@ -50,7 +50,8 @@ type ctrlOp struct {
 	Mode     string          `json:"mode,omitempty"`  // crash: between | before-write | after-write
 	Early    []int           `json:"early,omitempty"` // crash: services whose events arrive before the first full sync
 	PoolPos  int             `json:"pool_pos,omitempty"`
-	Settle   bool            `json:"settle,omitempty"` // crash: run the new instance to quiescence at once
+	Reset    bool            `json:"status_reset,omitempty"` // update to a non-LoadBalancer type: the API server also empties status.loadBalancer (as kube-apiserver does on a type change)
+	Settle   bool            `json:"settle,omitempty"`       // crash: run the new instance to quiescence at once
 }
 
 type ctrlCase struct {
@@ -168,6 +169,9 @@ func genCtrlCase(rt *rapid.T, o ctrlGenOpts) ctrlCase {
 			s := vw.MutateSvc(rt, live[op.Svc], 2, poolNames(cur))
 			op.Spec = &s
 			live[op.Svc] = s
+			if s.Type != vw.TypeLoadBalancer {
+				op.Reset = rapid.Bool().Draw(rt, "statusReset")
+			}
 		case k <= 15 && len(live) > 0:
 			op.Kind = "delete"
 			op.Svc = rapid.IntRange(0, len(live)-1).Draw(rt, "svc")
@@ -1299,6 +1303,12 @@ func runCtrl(c ctrlCase, tr *vw.Trace, j judgeSet) *vw.Violation {
 			s.create(*op.Spec)
 		case "update":
 			s.update(op.Svc, *op.Spec)
+			if k, ok := s.liveKey(op.Svc); ok && op.Reset && op.Spec.Type != vw.TypeLoadBalancer {
+				if obj := s.w.ServiceByKey(k); obj != nil && len(obj.Status.LoadBalancer.Ingress) > 0 {
+					obj.Status.LoadBalancer = v1.LoadBalancerStatus{}
+					tr.Class("type-change-with-status-reset-by-api-server")
+				}
+			}
 			tr.Class("service-updated")
 		case "event":
 			if k, ok := s.liveKey(op.Svc); ok { // a watch event without a spec change (metadata touch, periodic resync)
